@@ -65,15 +65,15 @@ T == Tail(C)
 Stmt(o) == [op |-> o]
 Unw(k) == [op |-> "unwind", kind |-> k]
 
-NewFrame(fn, g) ==
-    [fn |-> fn, st |-> "run", cont |-> Funcs[fn].body, env |-> <<>>, exc |-> "none", g |-> g]
+NewFrame(fn, g, owner) ==
+    [fn |-> fn, st |-> "run", cont |-> Funcs[fn].body, env |-> <<>>, exc |-> "none", g |-> g, owner |-> owner]
 
 SetCont(c) == frames' = [frames EXCEPT ![Top].cont = c]
 
 InitFrames ==
     /\ frames = << [fn |-> "task:" \o mode, st |-> "run",
                     cont |-> Progs[pid].funcs["task:" \o mode].body,
-                    env |-> <<>>, exc |-> "none", g |-> TRUE] >>
+                    env |-> <<>>, exc |-> "none", g |-> TRUE, owner |-> 0] >>
     /\ stack = <<1>>
     /\ phase = "run"
     /\ how = "complete"
@@ -160,7 +160,7 @@ IterStart ==  \* first __anext__: the generator object starts running (firstiter
     /\ Len(frames) < MaxGens
     /\ LET n == Len(frames) + 1 IN
        /\ frames' = Append([frames EXCEPT ![Top].env[H.var].gid = n],
-                           NewFrame(frames[Top].env[H.var].fn, H.g))
+                           NewFrame(frames[Top].env[H.var].fn, H.g, Top))
        /\ stack' = Append(stack, n)
     /\ UNCHANGED <<pid, mode, phase, how, fuel>>
 
@@ -361,8 +361,10 @@ TypeOK ==
 C36_AllClosedAtTaskEnd == phase \in {"done", "end"} => Unclosed = {}
 
 \* a generator whose opening site is syntactically guarded (try/finally + aclose,
-\* or async with aclosing) is never the one left open
-C36_GuardedNeverLeaks == phase \in {"done", "end"} => \A g \in Unclosed : ~frames[g].g
+\* or async with aclosing) is never the origin of a leak: it is left open only if
+\* the generator that opened it was itself left open
+C36_GuardedNeverLeaks ==
+    phase \in {"done", "end"} => \A g \in Unclosed : frames[g].g => frames[g].owner \in Unclosed
 
 \* the active chain: exactly the running frames, innermost last, no frame twice
 C36_ChainDiscipline ==
